@@ -36,7 +36,7 @@ CHECKS = {
          "Coq kernel + vm_compute; coordinate theorems about Degrees/round trip/printed form depend on the standard-library axioms ClassicalDedekindReals.sig_forall_dec, ClassicalDedekindReals.sig_not_dec, FunctionalExtensionality.functional_extensionality_dep, Classical_Prop.classic (through Flocq/Reals); time half axiom-free; strconv.FormatFloat is a hand model validated by correspondence; known finding lat_plus90",
          "Rocq proof over Flocq IEEE-754 model + translator-regenerated constants + exhaustive differential correspondence"),
  "C19": ("PARTIAL: gen_bijection/ftype_spec/gen_sheet_spec proved for a Gallina model of fitgen's scanner, parser, transform and struct/lookup generation over raw sheet grids; exit status, byte-identical reruns, compilation with the support closure and the SDK version string are run-time tests through the real command on the 5 bundled workbooks and sampled dependency-closed product profiles; fitgen's real output is compared with the extracted model on rows read by an independent xlsx reader and judged by the extracted spec",
-         "Coq kernel; no axioms; partial: text layout, go/printer, xlsx parsing and the Go compiler are not modelled (tested at run time); known finding unused_import",
+         "Coq kernel; no axioms; partial: text layout, go/printer, xlsx parsing and the Go compiler are not modelled (tested at run time); the unused-import defect of degenerate profiles was repaired (fix 9d03c31)",
          "Rocq proof (partial) of the row->entry mapping + real-command differential/metamorphic testing"),
  "C20": ("string_of_const and string_of_other proved for every generated type and ALL values of its width (generic lemmas over the three String shapes + one vm_compute of a well-formedness checker on the representation parsed from types_string.go on every run); tables_are_stringer_output against a Gallina model of the stringer; real String() of every constant, all 8/16-bit values and sampled 32-bit values compared with model and spec; the repository's stringer re-run on types.go and compared byte for byte",
          "Coq kernel + vm_compute; no axioms; translator gen_c20.go (go/ast over types.go and types_string.go, fails loudly on an unknown String shape); strconv.FormatInt modelled as a decimal numeral",
